@@ -225,6 +225,23 @@ def function(ip: Interp, fn: PyConst, args, kwargs, n):
         fr = fr.get() if isinstance(fr, ZRec) else fr
         rs = {'out_ok': z3.BoolSort(), 'out_frame': S.RECORDS['Frame'], 'out_fail_frame': S.RECORDS['Frame'], 'out_ret': Val, 'out_cut': z3.BoolSort()}[name]
         return ip.w.uf(name, z3.IntSort(), S.RECORDS['Frame'], rs)(ident, fr)
+    if name == 'boundcall':
+        # tatsu.util.typetools.boundcall(fun, known, *args, **kwargs): calls `fun` with the arguments its
+        # signature accepts -- assumed contract: behaves as the call fun(*args)
+        ip.w.assumptions.add('boundcall(fun, known, *args) is assumed to behave as fun(*args) for the arguments fun accepts')
+        f, _known, *rest = args
+        if isinstance(f, FuncVal):
+            c = ip.w.registry.generic[f.contract]
+            nparams = len(c.sig) - 1
+            return ip.call_contract(c, None, [f, *rest[:nparams]], {}, n)
+        return ip.call(f, rest, kwargs, n)
+    if name == 'exc_inside':
+        (e,) = args
+        v = e.info.get('inside')
+        return True if v is None else v
+    if name == 'exc_is':
+        e, cname = args
+        return ip.w.exc.is_sub(e.cls, cname)
     if name in ('dict_with', 'dict_get', 'dict_has'):
         d = args[0]
         if isinstance(d, ZRec):
